@@ -293,9 +293,20 @@ def run(prog, rep, tier='quick'):
         else:
             rep.proved('nesting', lev.qname, 'stores into A/ref [%s]' % ctx, '%d stores, none depends on the order' %
                        len([e for e in itp.events if e[0] == 'store' and e[5] == lev.qname]), where)
+        # the recursion runs through every requested order: no data-dependent break / return inside the order loop (a reflection
+        # coefficient that happens to be zero does not end the recursion)
+        gb = [e for e in itp.events if e[0] == 'guard-break' and e[4] == lev.qname and 'r' in e[3]]
+        if gb:
+            key = ('full-order', normalise(gb[0][1].test))
+            if key not in seen:
+                seen.add(key)
+                rep.violation('nesting', lev.qname, 'if %s: %s' % (normalise(gb[0][1].test)[:50], gb[0][2]), 'the order recursion is left on a '
+                              'condition computed from the data: the remaining orders are never processed, so the returned model is not the '
+                              'solution of the order-p equations (and its coefficients beyond that point are the initial zeros) [%s]' % ctx,
+                              loc(lev.mod, gb[0][1]))
+        else:
+            rep.proved('nesting', lev.qname, 'order loop exits [%s]' % ctx, 'no data-dependent break / return inside the recursion', where)
         if isinstance(v, Tup) and len(v.items) == 3:
-            if 'order' in taint_of(v.items[1]) and False:
-                pass
             report_conflicts(rep, 'scaling', itp, ('s',), 'LEVINSON,' + ctx, seen)
             check_sink(rep, 'scaling', lev.qname, ctx, 'a', v.items[0], {'s': F(0)}, where, itp, ('s',), seen)
             check_sink(rep, 'scaling', lev.qname, ctx, 'P', v.items[1], {'s': F(1)}, where, itp, ('s',), seen)
